@@ -196,18 +196,12 @@ func Intersection(limit int, sets ...*Set) (*Set, bool) {
 	}
 }
 
-// Union takes a slice of sets and generates a union
+// Union takes a slice of sets and generates a union.
+// The union is a new set: the sets passed in are read and never modified.
 func Union(sets ...*Set) *Set {
-	switch len(sets) {
-	case 1:
-		return sets[0]
-	case 2:
-		union := sets[0]
-		union.Add(sets[1].GetAll())
-		return union
-	default:
-		left := Union(sets[0 : len(sets)/2]...)
-		right := Union(sets[len(sets)/2:]...)
-		return Union(left, right)
+	union := NewSet([]string{})
+	for _, s := range sets {
+		union.Add(s.GetAll())
 	}
+	return union
 }
